@@ -112,14 +112,19 @@ static void do_marshal(int kind, const Objects& o, void* buf, bool c) {
 
 // Go-binding protocol: returns -2 if the binding itself rejects (length mismatch / set_length -1), else 0/1 = unmarshal result.
 // Slot arrays are allocated with exactly the reported size.
+// Length discovery has two equivalent spellings: set_length (what the Go binding uses), or the stand-alone *_unmarshalled_length followed
+// by the caller storing the slot count itself (set_length is defined as exactly that).  Every third call uses the second spelling.
+static unsigned g_proto;
 static int do_unmarshal(int kind, Objects& o, const uint8_t* buf, size_t len, bool c, bool checked, int* setlen_out) {
     *setlen_out = -3;
     if (len == 0) return -2;
+    bool by_hand = (g_proto++ % 3) == 2;
     switch (kind) {
     case WPARAMS: {
-        int n = embedded_pairing_wkdibe_params_set_length(&o.wp, buf, len, c);
-        *setlen_out = n;
         int n2 = embedded_pairing_wkdibe_params_unmarshalled_length(buf, len, c);
+        int n = n2;
+        if (by_hand) { if (n != -1) o.wp.l = n; } else n = embedded_pairing_wkdibe_params_set_length(&o.wp, buf, len, c);
+        *setlen_out = n;
         if (n2 != n) *setlen_out = -4;
         if (n == -1) return -2;
         free(o.wp.h);
@@ -127,9 +132,10 @@ static int do_unmarshal(int kind, Objects& o, const uint8_t* buf, size_t len, bo
         return embedded_pairing_wkdibe_params_unmarshal(&o.wp, buf, c, checked);
     }
     case WSK: {
-        int n = embedded_pairing_wkdibe_secretkey_set_length(&o.wsk, buf, len, c);
-        *setlen_out = n;
         int n2 = embedded_pairing_wkdibe_secretkey_unmarshalled_length(buf, len, c);
+        int n = n2;
+        if (by_hand) { if (n != -1) o.wsk.l = n; } else n = embedded_pairing_wkdibe_secretkey_set_length(&o.wsk, buf, len, c);
+        *setlen_out = n;
         if (n2 != n) *setlen_out = -4;
         if (n == -1) return -2;
         free(o.wsk.b);
